@@ -289,12 +289,23 @@ def install(m):
         if type(p) is not Ptr:
             return False
         st = m.load(alt, p)
+        users = m.once_users.setdefault(p.obj, set())
+        users.add(alt.thread.tid)
+        if type(st) is int and st == 2:
+            return True
+        # a Once that this goroutine allocated itself and that no other goroutine has touched (a local `var once sync.Once`,
+        # e.g. the tracer's termination Once) cannot block and races with nobody: no scheduling point
+        if p.obj[0] == alt.thread.tid and users == {alt.thread.tid} and p.path == ():
+            running = m.bool_of(lift1(st, lambda x: x == 1))
+            if running is False:
+                return True
         if type(st) is int:
-            return st == 2
+            return False
         done = m.bool_of(lift1(st, lambda x: x == 2)) if type(st) is Union else None
         if done is None:
             return False
         return not m.feasible(alt.guard, NOT(done))
+    m.once_users = {}
     m.quiet["(*sync.Once).Do"] = once_quiet
 
     # ------------------------------------------------------------------ sync.WaitGroup
